@@ -813,6 +813,86 @@ fn case_killed(n: usize, variant: u32) -> (u64, Vec<String>) {
 	c.finish()
 }
 
+/// Constructors / growers that consume an iterator, with an iterator that PANICS part way
+/// (caught by the caller): whatever the collection owned before and whatever the iterator had
+/// already yielded is dropped exactly once, and the collection - if it survives - is still usable.
+fn case_panicking_iter(n: usize, variant: u32) -> (u64, Vec<String>) {
+	let mut c = Case::new(&format!("panicking iterator n={n} variant={variant}"));
+	let fail_after = (variant as usize / 6) % (n + 1);
+	let reg = c.reg.clone();
+	let feed = move |k: usize| {
+		let reg = reg.clone();
+		(0..k + 1).map(move |i| {
+			if i == k {
+				std::panic::resume_unwind(Box::new(11u8));
+			}
+			Mutex::new(tok(&reg))
+		})
+	};
+	match variant % 6 {
+		0 => {
+			let mut col = RetryingLockCollection::new(c.ms(n));
+			let ids: Vec<u32> = col.get_mut().iter().map(|t| t.id).collect();
+			let r = catch_unwind(AssertUnwindSafe(|| col.extend(feed(fail_after))));
+			if r.is_ok() {
+				c.err("panic_swallowed", "extend swallowed the iterator's panic".into());
+			}
+			// the members it had before are still there, in place, and usable
+			write_all_guard!(col, 1);
+			let inner = col.into_inner();
+			for (t, id) in inner.iter().zip(&ids) {
+				c.expect(t, *id, 1, "Retrying::extend(panicking iterator), then lock + into_inner");
+			}
+		}
+		1 => {
+			let mut col = OwnedLockCollection::new(c.ms(n));
+			let ids: Vec<u32> = col.get_mut().iter().map(|t| t.id).collect();
+			let r = catch_unwind(AssertUnwindSafe(|| col.extend(feed(fail_after))));
+			if r.is_ok() {
+				c.err("panic_swallowed", "extend swallowed the iterator's panic".into());
+			}
+			write_all_guard!(col, 1);
+			let inner = col.into_inner();
+			for (t, id) in inner.iter().zip(&ids) {
+				c.expect(t, *id, 1, "Owned::extend(panicking iterator), then lock + into_inner");
+			}
+		}
+		2 => {
+			let r = catch_unwind(AssertUnwindSafe(|| {
+				let col: RetryingLockCollection<Vec<TM>> = feed(fail_after).collect();
+				drop(col);
+			}));
+			let _ = r;
+		}
+		3 => {
+			let r = catch_unwind(AssertUnwindSafe(|| {
+				let col: OwnedLockCollection<Vec<TM>> = feed(fail_after).collect();
+				drop(col);
+			}));
+			let _ = r;
+		}
+		4 => {
+			let r = catch_unwind(AssertUnwindSafe(|| {
+				let col: BoxedLockCollection<Vec<TM>> = feed(fail_after).collect();
+				drop(col);
+			}));
+			let _ = r;
+		}
+		_ => {
+			// an ordinary iterator, for comparison: everything arrives
+			let mut col = RetryingLockCollection::new(c.ms(n));
+			let reg = c.reg.clone();
+			col.extend((0..fail_after).map(move |_| Mutex::new(tok(&reg))));
+			write_all_guard!(col, 1);
+			let inner = col.into_inner();
+			if inner.len() != n + fail_after {
+				c.err("arity", format!("extend: {} values after adding {fail_after} to {n}", inner.len()));
+			}
+		}
+	}
+	c.finish()
+}
+
 fn signature(e: &str) -> (String, String) {
 	let rule = e.split('|').next().unwrap_or("drop").to_string();
 	(rule.clone(), format!("C16:{rule}"))
@@ -845,6 +925,11 @@ pub fn run(cfg: &RunCfg) -> Report {
 				cases.push((4, n, variant));
 			}
 		}
+		for n in 0..=3usize {
+			for variant in 0..(6 * (n as u32 + 1)) {
+				cases.push((5, n, variant));
+			}
+		}
 	}
 	if cfg.miri || cfg.leakcheck {
 		// one pass is plenty under the interpreter / valgrind
@@ -858,6 +943,7 @@ pub fn run(cfg: &RunCfg) -> Report {
 			1 => case_arrays(n),
 			2 => case_tuples(variant),
 			4 => case_killed(n, variant),
+			5 => case_panicking_iter(n, variant),
 			_ => case_forgotten_guard(n, variant),
 		};
 		let r = if kind == 3 {
@@ -912,6 +998,6 @@ pub fn run(cfg: &RunCfg) -> Report {
 			}
 		}
 	});
-	rep.rule = "drop-counting tokens (unique id per construction, table id -> drops) through every construction/destruction path: Vec / Box<[T]> / [T; 0..4] / tuples of arity 1, 3, 4, 7 / nested collections / &mut containers x boxed, ref, owned, retrying collections x {new, new_ref, try_new accept and reject (owned values next to a duplicate reference), from, from_iter, default, extend, into_child, into_inner, into_iter fully and partially consumed, child_mut replacement, get_mut, plain drop, drop by an unwind (panic in the owning frame / in a scoped closure / under a guard), drop after a guard was forgotten, Poisonable into_inner/into_child Ok and poisoned, and into_inner / into_child / get_mut / drop of containers one of whose locks has been KILLED (RawLock::poison) at every position}; values are written under a lock (guard and scoped) first and must come back at their declared positions with the last written value; every token must be dropped exactly once; distinct = distinct (path, size) cases".into();
+	rep.rule = "drop-counting tokens (unique id per construction, table id -> drops) through every construction/destruction path: Vec / Box<[T]> / [T; 0..4] / tuples of arity 1, 3, 4, 7 / nested collections / &mut containers x boxed, ref, owned, retrying collections x {new, new_ref, try_new accept and reject (owned values next to a duplicate reference), from, from_iter, default, extend, into_child, into_inner, into_iter fully and partially consumed, child_mut replacement, get_mut, plain drop, drop by an unwind (panic in the owning frame / in a scoped closure / under a guard), drop after a guard was forgotten, Poisonable into_inner/into_child Ok and poisoned, and into_inner / into_child / get_mut / drop of containers one of whose locks has been KILLED (RawLock::poison) at every position, extend / from_iter fed by an iterator that panics part way (caught)}; values are written under a lock (guard and scoped) first and must come back at their declared positions with the last written value; every token must be dropped exactly once; distinct = distinct (path, size) cases".into();
 	rep
 }
